@@ -196,6 +196,26 @@ def jobs(tier):
     js += bilin_jobs(tier)
     js += iter_jobs(tier)
     js += fetch_jobs(tier)
+    # (lead) the transform-class flags that select the specialised fetchers are only set for matrices of that class
+    # (obligations info.*_flag_* in harness/C09/info.c, the jobs of props/C09_info.py)
+    try:
+        import C09_info
+        for j in C09_info.jobs(tier):
+            j.name = "flags." + j.name
+            js.append(j)
+    except ImportError:
+        pass
+    # (lead) the C fast-path separable-convolution fetcher against the documented tap window (one-hot kernels)
+    for cw, ch in (((1, 3),) if tier == "quick" else ((1, 3), (2, 2), (3, 1), (2, 3))):
+        js.append(Job("fastpath.sepconv.window.%dx%d" % (cw, ch), "C08/fp_sepconv.c", defines={"VC_CW": cw, "VC_CH": ch}, unwind=8,
+                      cbmc_flags=["--no-undefined-shift-check"], kind="bounded",
+                      bound="kernel %dx%d, 0 subsample bits, one-hot weights; 4x4 source; scanline width 1" % (cw, ch),
+                      functions=["bits_image_fetch_separable_convolution_affine"],
+                      domain="every sample position within +-12 pixels, every one-hot tap, every source content (NORMAL repeat)",
+                      timeout=2400, min_props=2,
+                      assumptions=["fastpath.sepconv: --no-undefined-shift-check: (vx >> s) << s with negative vx is a left shift of a negative value "
+                                   "(same pattern as the known finding C08 finding.sepconv.negative_shift in pixman-bits-image.c)",
+                                   "fastpath.sepconv: pixman_transform_point_3d replaced by a stub returning the harness-chosen position"]))
     # (lead) wide pipeline: a pixel whose (4-word) mask pixel is non-zero must be fetched — found the defect repaired by the
     # fix: commit "wide fetchers: test the whole mask pixel"
     for it, fn in ((0, "bits_image_fetch_affine_no_alpha_float"), (1, "bits_image_fetch_general_float")):
